@@ -11,7 +11,7 @@ func targeted() []Spec {
 	all := Rest{Path: "/all", Name: "/all", Methods: ms}
 	patch2 := Rest{Path: "/all", Name: "/all", Attrs: []Attr{{Kind: 0, Name: "pa", Val: "é"}, {Kind: 1, Name: "pm"}},
 		Methods: []Method{{Verb: "PATCH", Attrs: []Attr{{Kind: 1, Name: "own"}}, Stmts: txt("ping")}, {Verb: "GET", Query: "q=int", Stmts: txt("log")}},
-		Kids: []Rest{{Path: "/sub/{id <: int}", Name: "/sub/{id}", Methods: []Method{{Verb: "PATCH", Stmts: txt("log")}, {Verb: "DELETE", Stmts: txt("log")}}}}}
+		Kids:    []Rest{{Path: "/sub/{id <: int}", Name: "/sub/{id}", Methods: []Method{{Verb: "PATCH", Stmts: txt("log")}, {Verb: "DELETE", Stmts: txt("log")}}}}}
 	t1 := TypeD{Name: "T0", Attrs: []Attr{{Kind: 0, Name: "ta", Val: "中文"}, {Kind: 1, Name: "tm"}}, Annos: []Anno{{Name: "n1", Val: "x"}},
 		Fields: []Field{{Name: "f0", Type: "int", Attrs: []Attr{{Kind: 1, Name: "pk"}}}, {Name: "f1", Type: "string", Opt: true}}}
 	t2 := TypeD{Name: "T0", Annos: []Anno{{Name: "n1", Val: "y"}, {Name: "n2", Items: []string{"a", "é"}}},
@@ -42,6 +42,9 @@ func targeted() []Spec {
 	// the same members again under other attribute names (an attribute written as [name=value] on two declarations of
 	// its owner is replaced, not merged: see the override stream)
 	t1b, patch2b := t1, patch2
+	// (another name for the typed path parameter: a method declared again under the SAME typed path has its URL parameters
+	// replaced - known finding, replacing stream)
+	patch2b.Kids = []Rest{{Path: "/sub/{key <: int}", Name: "/sub/{key}", Methods: patch2.Kids[0].Methods}}
 	t1b.Attrs = []Attr{{Kind: 0, Name: "tb", Val: "中文"}, {Kind: 1, Name: "tm"}}
 	patch2b.Attrs = []Attr{{Kind: 0, Name: "pb", Val: "é"}, {Kind: 1, Name: "pm"}}
 	three := Spec{Files: []FileD{
@@ -61,8 +64,12 @@ func targeted() []Spec {
 	}}
 	// a cross edge to a later sibling: main imports a, b; a imports b, c; one element re-opened in every file. The files
 	// are compiled main, a, b, c (depth-first preorder); an order that marks files when they are queued gives main, a, c, b
-	shareT := func(f string) TypeD { return TypeD{Name: "T0", Fields: []Field{{Name: "f0", Type: "int"}, {Name: f, Type: "string"}}} }
-	shareE := func(w string) EpD { return EpD{Name: "E0", Annos: []Anno{{Name: "n804", Form: fNested, Nested: [][]string{{"a", "b"}, {"c"}}}}, Stmts: txt(w)} }
+	shareT := func(f string) TypeD {
+		return TypeD{Name: "T0", Fields: []Field{{Name: "f0", Type: "int"}, {Name: f, Type: "string"}}}
+	}
+	shareE := func(w string) EpD {
+		return EpD{Name: "E0", Annos: []Anno{{Name: "n804", Form: fNested, Nested: [][]string{{"a", "b"}, {"c"}}}}, Stmts: txt(w)}
+	}
 	five := Spec{Files: []FileD{
 		{Name: "f0.sysl", Imports: []string{"f1", "f2"}, ImpIdx: []int{1, 2}, Blocks: []Block{{App: "A0", Items: []interface{}{Anno{Name: "n804", Form: fNested, Nested: [][]string{{"x"}}}, shareT("f1"), shareE("work")}}}},
 		{Name: "f1.sysl", Imports: []string{"f2", "f3"}, ImpIdx: []int{2, 3}, Blocks: []Block{{App: "A0", Items: []interface{}{Anno{Name: "n804", Form: fNested, Nested: [][]string{{"y"}, {"z"}}}, shareT("f2"), shareE("ping")}}}},
@@ -90,5 +97,50 @@ func targeted() []Spec {
 		{Name: "f1.sysl", Imports: []string{"f2"}, ImpIdx: []int{2}, Blocks: []Block{{App: "Legacy"}, {App: "A0", Items: []interface{}{pe2}}}},
 		{Name: "f2.sysl", Blocks: []Block{{App: "Legacy"}, {App: "Mx", Attrs: []Attr{{Kind: 1, Name: "abstract"}}}}},
 	}}
-	return []Spec{one, two, three, four, five, six}
+	// round 3, second pass: typed path parameters (two on a chain of paths, shared by the methods below), a collector with
+	// every statement form declared in two files (locations accumulate, the statements of the first are replaced), a
+	// subscription to an event of a declared and of an undeclared application, with and without body, as the LAST element
+	// of its application (the application then ends where the subscription's own context ends)
+	col1 := Collector{Stmts: []CStmt{{Kind: cAction, Text: "do the thing", Attrs: []Attr{{Kind: 1, Name: "c1"}}},
+		{Kind: cCall, App: "Ns0 :: A1", Text: "C1", Attrs: []Attr{{Kind: 0, Name: "ca", Val: "é"}, {Kind: 2, Name: "cb", Items: []string{"x", "中"}}}},
+		{Kind: cHTTP, App: "GET", Text: "/c1/{id}/items", Attrs: []Attr{{Kind: 1, Name: "c3"}}}}}
+	col2 := Collector{Stmts: []CStmt{{Kind: cHTTP, App: "PATCH", Text: "/c0", Attrs: []Attr{{Kind: 1, Name: "c4"}, {Kind: 0, Name: "cc", Val: "v"}}}}}
+	vars := Rest{Path: "/v/{a <: int}", Name: "/v/{a}", Attrs: []Attr{{Kind: 1, Name: "va"}}, Annos: []Anno{{Name: "vn", Val: "x"}},
+		Methods: []Method{{Verb: "GET", Stmts: txt("work")}, {Verb: "PATCH", Stmts: txt("log")}},
+		Kids:    []Rest{{Path: "/w/{b <: string}", Name: "/w/{b}", Methods: []Method{{Verb: "POST", Stmts: txt("ping")}}}}}
+	sub1 := Subscribe{Pub: "Ns0 :: A1", Event: "Sv0", Attrs: []Attr{{Kind: 0, Name: "sa", Val: "ß"}, {Kind: 1, Name: "sm"}},
+		Stmts: []Stmt{{Kind: sText, Text: "work"}, {Kind: sIf, Text: "c1", Body: txt("log")}}}
+	sub2 := Subscribe{Pub: "Ext", Event: "Sv1", Attrs: []Attr{{Kind: 2, Name: "sb", Items: []string{"é", "b"}}}}
+	sub3 := Subscribe{Pub: "Ext", Event: "Sv1", Stmts: txt("validate")}
+	seven := Spec{Files: []FileD{
+		{Name: "f0.sysl", Imports: []string{"f1"}, ImpIdx: []int{1}, Blocks: []Block{
+			{App: "A0", Items: []interface{}{vars, col1, sub1, sub2}},
+			{App: "A2", Items: []interface{}{sub3}}}},
+		{Name: "f1.sysl", Blocks: []Block{
+			{App: "Ns0 :: A1", Items: []interface{}{EpD{Name: "E1", Stmts: txt("work")}}},
+			{App: "A0", Items: []interface{}{col2, Collector{}}},
+			{App: "A3", Items: []interface{}{sub3, EpD{Name: "E0", Shortcut: true}}}}},
+	}}
+	return []Spec{one, two, three, four, five, six, seven}
+}
+
+// replacingTargeted: the two re-declarations that REPLACE met in the second pass of round 3, for the replacing stream (Go
+// oracle only): a REST method declared again under the same typed path (its URL parameter keeps the last declaration's
+// location) and a subscription declared again in a second block and file
+func replacingTargeted() Spec {
+	txt := func(s string) []Stmt { return []Stmt{{Kind: sText, Text: s}} }
+	typed := func(w string) Rest {
+		return Rest{Path: "/r/{id <: int}", Name: "/r/{id}", Methods: []Method{{Verb: "GET", Stmts: txt(w)}}}
+	}
+	sub := func(w string) Subscribe { return Subscribe{Pub: "Ext", Event: "Sv0", Stmts: txt(w)} }
+	// (and the three type-like forms of the first pass, so that every known key of this kind reproduces on every run)
+	en := TypeD{Form: tEnum, Name: "En1", Members: []string{"A", "B"}}
+	al := TypeD{Form: tAlias, Name: "Al1", Target: "int", Inline: true}
+	un := TypeD{Form: tUnion, Name: "Un1", Members: []string{"int", "string"}}
+	return Spec{Files: []FileD{
+		{Name: "f0.sysl", Imports: []string{"f1"}, ImpIdx: []int{1}, Blocks: []Block{
+			{App: "A0", Items: []interface{}{typed("work"), sub("log"), en, al, un}},
+			{App: "A0", Items: []interface{}{typed("ping")}}}},
+		{Name: "f1.sysl", Blocks: []Block{{App: "A0", Items: []interface{}{sub("validate"), typed("log"), un, al, en}}}},
+	}}
 }
